@@ -6,17 +6,11 @@
    unwrapped — the extended counterpart of Parser_basic.v. *)
 From Coq Require Import ZArith NArith QArith Bool List Lia.
 From PV Require Import Base.Num Base.Outcome Circuit.ElemState Circuit.ElemProp Circuit.ElemState_facts Circuit.Tree Circuit.Token Circuit.Registry Circuit.Parser
-  Circuit.Printer Circuit.Parser_facts Circuit.Token_decode Circuit.Printer_lex Circuit.Parser_basic.
+  Circuit.Printer Circuit.Parser_facts Circuit.Token_decode Circuit.Token_ext Circuit.Printer_lex Circuit.Parser_basic.
 Import ListNotations.
 Local Open Scope nat_scope.
 
 (* ---- tokens of a printed element -------------------------------------------------------------------------------------------- *)
-Definition punct (k : tkind) : str :=
-  match k with
-  | KLBr => [91%N] | KRBr => [93%N] | KLPar => [40%N] | KRPar => [41%N] | KLCur => [123%N] | KRCur => [125%N] | KEq => [61%N]
-  | KSlash => [47%N] | KPct => [37%N] | KComma => [44%N] | KColon => [58%N] | KExcl => [33%N] | _ => []
-  end.
-Definition ptok (k : tkind) : tok := mkTok k (punct k) (Fin 0%Q).
 (* [nstr]: the source text the scanner keeps for a number is irrelevant to the parser (only [tnum] is read) *)
 Definition num_tok (fixed : bool) (x : xnum) : tok := mkTok (if fixed then KFixed else KNumber) [] x.
 Definition limit_toks (x : xnum) : list tok := if is_inf x then [ident_tok str_inf] else [num_tok false x].
